@@ -277,25 +277,32 @@ def uniform_refinement(image: darsia.Image, levels: int) -> darsia.Image:
 
                 slice_0 = i_slice(slice(0, None, 2))
                 slice_1 = i_slice(slice(1, None, 2))
-
-                # Determine weight for slice_0 elements
-                axis_length = image.img.shape[i]
-                weight_0 = 0.5 * np.ones(array[slice_0].shape)
-                half_axis_length = int(np.floor(axis_length) / 2)
-                double_axis_length = 2 * half_axis_length
-                if axis_length % 2 == 1:
-                    weight_0[i_slice(slice(double_axis_length, None))] = 1
-
-                # The weight for slice_1 is constant
-                weight_1 = 0.5
-
-                # Weighted sum for coarsening
                 sub_array_0 = array[slice_0]
                 sub_array_1 = array[slice_1]
-                array = np.multiply(weight_1, sub_array_0)
-                array[i_slice(slice(0, half_axis_length))] += np.multiply(
-                    weight_1, sub_array_1
-                )
+
+                # NOTE: Use the length of the current (possibly already coarsened)
+                # array. The coarse voxels partition the same physical extent.
+                axis_length = array.shape[i]
+                coarse_axis_length = (axis_length + 1) // 2
+
+                if axis_length % 2 == 0:
+                    # Each coarse voxel consists of exactly two fine voxels.
+                    array = np.multiply(0.5, sub_array_0) + np.multiply(
+                        0.5, sub_array_1
+                    )
+                else:
+                    # The coarse voxels are larger than the fine voxels by the factor
+                    # axis_length / coarse_axis_length < 2: Coarse voxel k contains
+                    # the fine voxel 2k, and shares the fine voxels 2k-1 and 2k+1 with
+                    # its neighbors. Conservative coarsening weights with the overlap.
+                    k = np.arange(1, coarse_axis_length).reshape(
+                        [-1 if i == j else 1 for j in range(array.ndim)]
+                    )
+                    array = np.multiply(1.0, sub_array_0)
+                    weight_1 = (k / coarse_axis_length).astype(array.dtype)
+                    array[i_slice(slice(1, None))] += weight_1 * sub_array_1
+                    array[i_slice(slice(0, -1))] += (1 - weight_1) * sub_array_1
+                    array *= coarse_axis_length / axis_length
 
     # Return resized image
     meta = image.metadata()
